@@ -268,7 +268,8 @@ def check(run):
     thorough = run.tier == 'thorough'
     common.prove(run, 'C12', ['model/C12Flex.vo', 'model/C12FlexLines.vo', 'model/C12FlexSpec.vo', 'model/C12Grid.vo',
                               'proofs/C12_gen_grid_base.vo', 'proofs/C12_gen_grid_place.vo',
-                              'proofs/C12_gen_grid_children.vo', 'proofs/C12_gen_flex_base.vo',
+                              'proofs/C12_gen_grid_children.vo', 'proofs/C12_gen_grid_second.vo',
+                              'proofs/C12_gen_flex_base.vo',
                               'proofs/C12_gen_flex_run.vo', 'proofs/C12_gen_flex.vo'])
     run.trusted += ['Coq 8.16.1 kernel (coqc); vm_compute for the cases.v evaluation',
                     'harness/p_c12.py, p_c12grid.py: translation of the generated CSS into model inputs (used flex basis, '
@@ -278,7 +279,10 @@ def check(run):
                         'correspondence (tolerance 1e-6 px, integer/dyadic inputs); by the translator only the grid '
                         'placement helpers _intersect, _intersect_with_children, _get_span, _get_line, _get_placement '
                         '(gen/GenGrid.v, theorems C12_source_*), for grid lines without names: the named-line searches '
-                        'are printed as "%unsupported" calls and proved unreachable there',
+                        'are printed as "%unsupported" calls and proved unreachable there; of _get_second_placement only '
+                        'the sparse branch for second_start auto (C12_source_second_*: the set of occupied tracks is '
+                        'given by its elements); its loop building the set, the dense branch and the `count()` search '
+                        'for a span are tied by render correspondence only',
                         'flex.py step 6 (9.7.1, 9.7.3, 9.7.4, 9.7.5.b-e) is tied by the translator slice by slice '
                         '(gen/GenFlexResolve.v, theorems C12_source_flex_*): items are attribute bags read as values, '
                         'loops that store attributes of the items are printed by the rule rebuild_for of tools/py2coq.py '
